@@ -28,7 +28,7 @@ type C17Plan struct {
 	Idx       int           `json:"idx"`
 	Instances []C17Instance `json:"instances"`
 	Schedule  []int         `json:"schedule,omitempty"` // interleaving choices; exhausted: PRNG(run_seed)
-	Only      string        `json:"only,omitempty"`     // restrict to one sub-check: interleave|isolation|order|case|reuse|recent
+	Only      string        `json:"only,omitempty"`     // restrict to one sub-check: interleave|isolation|order|case|reuse|split|recent
 }
 
 // ---- the small executable model of switch-like options ----
@@ -152,6 +152,11 @@ func conflict(a, b Op) bool {
 	return false
 }
 
+// elements whose content no policy skips by default (the documented default skip list names only
+// invisible-content elements: script, style, iframe, object, title, noscript, ...)
+var visibleContentEls = map[string]bool{"div": true, "p": true, "span": true, "b": true, "i": true, "my-el": true, "x-el": true, "my-widget": true,
+	"td": true, "li": true, "a": true, "h1": true, "blockquote": true, "pre": true, "code": true, "my-box": true, "x-foo": true}
+
 // booleans a blank policy starts with ("nothing allowed or permitted")
 var blankDefaults = map[string]string{"urlparse": "false", "relative": "false", "nofollow": "false", "nofollowfq": "false",
 	"noreferrer": "false", "noreferrerfq": "false", "targetblank": "false", "crossorigin": "false", "dataattrs": "false",
@@ -188,6 +193,9 @@ func removableIndex(base string, ops []Op) int {
 		}
 		if blank && strings.HasPrefix(k, "scheme:") {
 			return "absent", true // a blank policy has no scheme registered
+		}
+		if strings.HasPrefix(k, "skip:") && visibleContentEls[strings.TrimPrefix(k, "skip:")] {
+			return "false", true // no constructor skips the content of an ordinary visible-content element
 		}
 		return "", false
 	}
@@ -322,8 +330,11 @@ func genCollisions(r *RNG) []Op {
 			{K: "AllowStyles", Names: []string{prop}, Fn: "digits"},
 			{K: "AllowStyles", Names: []string{prop}, Enum: []string{"blue", "left"}},
 			{K: "AllowStyles", Names: []string{prop}, Re: `^#[0-9a-f]{3}$`},
+			{K: "AllowStyles", Names: []string{prop}, Fn: "maxlen=3"},
+			{K: "AllowStyles", Names: []string{prop}, Fn: "prefix=b"},
+			{K: "AllowStyles", Names: []string{prop}, Fn: "prefix=1"},
 		}
-		for _, i := range r.Perm(len(variants))[:r.Range(2, 3)] {
+		for _, i := range r.Perm(len(variants))[:r.Range(2, 4)] {
 			o := variants[i]
 			o.Scope = scope
 			switch scope {
@@ -521,6 +532,7 @@ func probesFor(r *RNG, all []Op, fresh string) [][]byte {
 		case "SkipElementsContent", "AllowElementsContent":
 			for _, n := range o.Names {
 				add("a<" + n + ">inner<b>x</b></" + n + ">z")
+				add("a<" + n + ">k</" + n + "><iframe>i</iframe><object>o</object>after<" + n + ">k2</" + n + "><title>t</title>end")
 			}
 		case "AllowDataURIImages":
 			for _, u := range urlSamples {
@@ -931,7 +943,40 @@ func runC17(planJSON []byte) (*RunResult, error) {
 				}
 			}
 		}
-		// 6. most recent setting
+		// 6. one call naming several attributes/properties/elements = the calls for each single name
+		if want("split") {
+			var split []Op
+			n := 0
+			for _, o := range in.Ops {
+				base := []Op{o}
+				if two := o.SplitReuse(); two != nil {
+					base = two
+				}
+				for _, b := range base {
+					if singles := b.SplitNames(); singles != nil {
+						split = append(split, singles...)
+						n++
+					} else {
+						split = append(split, b)
+					}
+				}
+			}
+			if n > 0 {
+				fp := fingerprint(buildSeq(in.Base, split), probes)
+				res.Evals += int64(len(probes))
+				res.count("check.split", 1)
+				res.count("calls_split", int64(n))
+				res.Nontrivial++
+				fmt.Fprintf(dig, "split%d %s\n", i, digestBytes([]byte(strings.Join(fp, "\x00"))))
+				if firstDiff(fp, refFP[i]) >= 0 {
+					where, got, exp := describe(i, fp, refFP[i])
+					viol("split", "C17/grouping-dependent", "split",
+						fmt.Sprintf("instance %d: making one call per attribute/property/element instead of one call naming several behaves differently: %s gives %q with single-name calls, %q with the grouped ones. history: %s",
+							i, where, got, exp, opsString(in.Ops)), got, exp)
+				}
+			}
+		}
+		// 7. most recent setting
 		if want("recent") {
 			red, dropped := reduceHistory(in.Base, in.Ops)
 			if dropped > 0 {
